@@ -78,8 +78,13 @@ func check(id, tier, repo, verif string, noposex bool) (code int) {
 	if !noposex {
 		overlay = props.PositiveExamples(verif, spec)
 	}
-	prog := core.Load(repo, overlay)
+	prog, posexDropped := loadWithPosex(repo, overlay)
 	run := core.NewRun(id, tier, prog)
+	if posexDropped {
+		run.NoPosex = true
+		run.Note("the in-memory positive examples do not type-check against this tree (a declaration they refer to changed); the rules ran on the tree itself, without the armed-ness self-check")
+		fmt.Println("note: positive examples dropped (they do not type-check against this tree); rules run without the armed-ness self-check")
+	}
 	run.Stats["module_packages"] = len(prog.Pkgs)
 	run.Stats["module_functions"] = len(prog.ModuleFuncs())
 	spec.Run(run)
@@ -88,4 +93,28 @@ func check(id, tier, repo, verif string, noposex bool) (code int) {
 	meta.CheckerCmd = fmt.Sprintf("%s/bin/dblint check -property %s -tier %s", verif, id, tier)
 	meta.Trusted = append([]string{"go/types, go/ssa, callgraph/vta+cha of golang.org/x/tools v0.29.0", "Go 1.23.5 type checker"}, meta.Trusted...)
 	return run.Finish(verif, known, meta)
+}
+
+// loadWithPosex loads the tree with the positive examples injected; if that
+// fails although the tree alone loads, the examples are dropped (a changed
+// declaration must not turn the self-check into an alarm about the tree).
+func loadWithPosex(repo string, overlay map[string][]byte) (p *core.Prog, dropped bool) {
+	if len(overlay) == 0 {
+		return core.Load(repo, overlay), false
+	}
+	func() {
+		defer func() {
+			if e := recover(); e != nil {
+				if _, isAE := e.(core.AnalysisError); !isAE {
+					panic(e)
+				}
+				p = nil
+			}
+		}()
+		p = core.Load(repo, overlay)
+	}()
+	if p != nil {
+		return p, false
+	}
+	return core.Load(repo, nil), true
 }
